@@ -148,7 +148,7 @@ _counter = [0]
 
 def decl(family, inner, sanitizers=(), validators=(), derives=(), default=None, custom=None,
          const_fn=False, new_unchecked=False, generics='', vis='pub', layout=None, tags=(),
-         extra_blocks=None, expect='accept', note=''):
+         extra_blocks=None, expect='accept', note='', split=None):
     _counter[0] += 1
     return {
         'name': None, 'family': family, 'inner': inner, 'generics': generics,
@@ -156,7 +156,7 @@ def decl(family, inner, sanitizers=(), validators=(), derives=(), default=None, 
         'custom': copy.deepcopy(custom),
         'derives': list(derives), 'default': default, 'const_fn': const_fn,
         'new_unchecked': new_unchecked, 'vis': vis, 'layout': layout, 'tags': list(tags),
-        'extra_blocks': extra_blocks, 'expect': expect, 'note': note,
+        'extra_blocks': extra_blocks, 'expect': expect, 'note': note, 'split': split,
     }
 
 
@@ -208,6 +208,10 @@ def render_attr(d, line0=0):
             else:
                 items.append((f"with = {sn['text']}", sn, len('with = ')))
         blocks['sanitize'] = build('sanitize', items)
+        k = (d.get('split') or {}).get('sanitize')
+        if k:
+            blocks['sanitize'] = build('sanitize', items[:k])
+            blocks['sanitize#2'] = build('sanitize', items[k:])
     if d['validators'] or d['custom']:
         items = []
         for v in d['validators']:
@@ -222,8 +226,16 @@ def render_attr(d, line0=0):
                 pair.reverse()
             items += pair
         blocks['validate'] = build('validate', items)
+        k = (d.get('split') or {}).get('validate')
+        if k:
+            blocks['validate'] = build('validate', items[:k])
+            blocks['validate#2'] = build('validate', items[k:])
     if d['derives']:
         blocks['derive'] = build('derive', [(x, None, 0) for x in d['derives']])
+        k = (d.get('split') or {}).get('derive')
+        if k:
+            blocks['derive'] = build('derive', [(x, None, 0) for x in d['derives'][:k]])
+            blocks['derive#2'] = build('derive', [(x, None, 0) for x in d['derives'][k:]])
     if d['default'] is not None:
         blocks['default'] = (f"default = {d['default']['text']}", [])
     if d['const_fn']:
@@ -234,6 +246,17 @@ def render_attr(d, line0=0):
     if d.get('layout') and d['layout'].get('order'):
         order = d['layout']['order']
     parts = [blocks[k] for k in order if k in blocks]
+    second = [blocks[k + '#2'] for k in order if (k + '#2') in blocks]
+    if (d.get('split') or {}).get('adjacent'):
+        # the repeated block directly after the first one
+        parts = []
+        for k in order:
+            if k in blocks:
+                parts.append(blocks[k])
+                if (k + '#2') in blocks:
+                    parts.append(blocks[k + '#2'])
+    else:
+        parts += second
     if d.get('extra_blocks'):
         # raw extra blocks (repeated validate(..) etc.), positioned by index
         for pos, text in d['extra_blocks']:
@@ -734,6 +757,22 @@ def build(tier='quick', seed=0):
                          const_fn='const_fn' in order and 'sanitize' not in order, new_unchecked='new_unchecked' in order,
                          layout={'order': order, 'trailing': True, 'trailing_outer': True}, tags=['layout']))
 
+    # ---------------- repeated blocks (C02): Sigma = rejected, or every written rule enforced --------
+    for adjacent in (False, True):
+        full.append(decl('int', 'i32', validators=[V('greater', '5', 5, 'lit'), V('less', '30', 30, 'lit')], derives=['Debug', 'TryFrom'],
+                         split={'validate': 1, 'adjacent': adjacent}, expect='either', tags=['repeat']))
+        full.append(decl('float', 'f64', validators=[V('finite'), V('less', '30', 30.0, 'lit')], derives=['Debug', 'TryFrom'],
+                         split={'validate': 1, 'adjacent': adjacent}, expect='either', tags=['repeat']))
+        full.append(decl('string', 'String', sanitizers=[S('trim'), S('lowercase')], validators=[V('not_empty'), V('len_char_max', '8', 8, 'lit')],
+                         derives=['Debug', 'TryFrom'], split={'sanitize': 1, 'validate': 1, 'adjacent': adjacent}, expect='either', tags=['repeat']))
+        full.append(decl('int', 'u8', sanitizers=[S('with', '|x| x / 2', 'closure'), S('with', '|x| x + 1', 'closure')], derives=['Debug', 'From'],
+                         split={'sanitize': 1, 'adjacent': adjacent}, expect='either', tags=['repeat']))
+        full.append(decl('int', 'i64', validators=[V('less', '30', 30, 'lit')], derives=['Debug', 'TryFrom', 'Clone', 'PartialEq'],
+                         split={'derive': 2, 'adjacent': adjacent}, expect='either', tags=['repeat']))
+        full.append(decl('any', 'Point', validators=[V('predicate', 'pred_point', form='path', callee='pred_point')],
+                         sanitizers=[S('with', 'san_point', 'path', callee='san_point')], derives=['Debug', 'TryFrom', 'Clone'],
+                         split={'derive': 1, 'adjacent': adjacent}, expect='either', tags=['repeat']))
+
     # ---------------- visibility -------------------------------------------------------
     for vis in ('', 'pub(crate)', 'pub'):
         full.append(decl('int', 'i32', validators=[V('less', '10', 10, 'lit')], derives=['Debug', 'FromStr'], vis=vis, tags=['vis']))
@@ -761,6 +800,22 @@ def build(tier='quick', seed=0):
                           derives=full_derives('float', True, has_finite=True, arbitrary_ok=False), tags=['nostd']))
         nostd.append(decl('float', t, custom={'with_text': f'check_{t}', 'form': 'path', 'callee': f'check_{t}', 'error': 'MyErr'},
                           const_fn=False, derives=full_derives('float', True, arbitrary_ok=False), tags=['nostd']))
+    # every derivable trait alone (with what it requires), with and without validation
+    singles = {
+        'int': ['Debug', 'Clone', 'Clone, Copy', 'PartialEq', 'PartialEq, Eq', 'PartialEq, PartialOrd', 'PartialEq, Eq, PartialOrd, Ord', 'Hash', 'AsRef', 'Deref',
+                'Borrow', 'Into', 'Display', 'FromStr', 'TryFrom', 'Serialize', 'Deserialize', 'Arbitrary', 'Default'],
+        'float': ['Debug', 'Clone', 'Clone, Copy', 'PartialEq', 'PartialEq, PartialOrd', 'AsRef', 'Deref', 'Borrow', 'Into', 'Display', 'FromStr', 'TryFrom',
+                  'Serialize', 'Deserialize', 'Arbitrary', 'Default'],
+    }
+    for fam, t, vtxt in (('int', 'i32', [V('greater_or_equal', '1', 1, 'lit'), V('less_or_equal', 'K_I32 * 2', K * 2, 'expr')]),
+                         ('float', 'f64', [V('greater_or_equal', '0.5', 0.5, 'lit'), V('less_or_equal', 'KF_F64 * 2.0', KF * 2, 'expr')])):
+        for ds in singles[fam]:
+            dl = [x.strip() for x in ds.split(',')]
+            dflt = {'text': '2' if fam == 'int' else '1.5', 'value': 2 if fam == 'int' else 1.5} if 'Default' in dl else None
+            nostd.append(decl(fam, t, validators=vtxt, derives=dl, default=dflt, tags=['nostd', 'single-trait']))
+            if 'TryFrom' not in dl:
+                nostd.append(decl(fam, t, derives=dl, default=dflt, tags=['nostd', 'single-trait']))
+    nostd.append(decl('float', 'f32', validators=[V('finite')], derives=['Debug', 'PartialEq', 'Eq', 'PartialOrd', 'Ord'], tags=['nostd']))
     nostd.append(decl('any', 'Point', derives=['Debug', 'Clone', 'Copy', 'PartialEq', 'Eq', 'PartialOrd', 'Ord', 'Hash', 'AsRef', 'Deref', 'Into', 'Borrow', 'Display', 'FromStr', 'From', 'Default'],
                       default={'text': 'Point { x: 1, y: 2 }', 'value': None}, tags=['nostd']))
     nostd.append(decl('any', 'Point', validators=[V('predicate', 'pred_point', form='path', callee='pred_point')],
